@@ -23,6 +23,9 @@ import (
 type segment struct {
 	Type byte   `json:"type"` // 1 text, 2 binary
 	Data []byte `json:"data"`
+	// Pattern > 0: Data is the byte pattern of that length (large segments
+	// are stored by length in replay files)
+	Pattern int `json:"pattern,omitempty"`
 	// Declared length; -1 means len(Data).  Larger values make the segment
 	// short.
 	Declared int64 `json:"declared"`
@@ -44,7 +47,14 @@ func header(tp byte, n int64) []byte {
 }
 
 func (c *pfbCase) stream() (data []byte, want []byte, short bool) {
-	for _, s := range c.Segs {
+	for i, s := range c.Segs {
+		if s.Pattern > 0 && len(s.Data) != s.Pattern {
+			s.Data = make([]byte, s.Pattern)
+			for k := range s.Data {
+				s.Data[k] = byte(k*37 + k>>9 + i)
+			}
+			c.Segs[i].Data = s.Data
+		}
 		n := int64(len(s.Data))
 		if s.Declared >= 0 {
 			n = s.Declared
@@ -365,6 +375,48 @@ func TestP3Headers(t *testing.T) {
 	rec.Exhaustive()
 	rec.Sample(map[string]any{"position": "after text segment", "header": "81 01", "want": "ErrInvalidPFB"})
 	rec.Sample(map[string]any{"position": "start", "header": "80 04", "want": "ErrInvalidPFB"})
+}
+
+func TestP4Large(t *testing.T) {
+	rec := ev.New("C14", "large")
+	defer rec.Finish(t)
+	rec.Rule("segments whose length needs the third (65,535 / 65,536 / 65,537 / 70,000 / 131,072 / 196,611 bytes) and - thorough tier - the fourth length byte (2^24, 2^24+5), text and binary, between two small segments, under caller buffers of 1, 7+64, 4096, 65,536 and 2^20 bytes and underlying reads all at once, in 513-byte and in 4096-byte chunks. Same model as the streams part. Every case is non-trivial; enumerated completely.")
+	lengths := []int{65535, 65536, 65537, 70000, 131072, 196611}
+	if ev.Thorough() {
+		lengths = append(lengths, 1<<24, 1<<24+5)
+	}
+	k := 0
+	for _, l := range lengths {
+		for _, tp := range []byte{1, 2} {
+			for _, bufs := range [][]int{{1}, {7, 64}, {4096}, {65536}, {1 << 20}} {
+				for _, chunks := range [][]int{nil, {513}, {4096}} {
+					if l >= 1<<24 && len(bufs) == 1 && bufs[0] == 1 {
+						continue // 32 M one-byte reads: nothing the 196,611-byte case does not do
+					}
+					k++
+					if !ev.Mine(k) {
+						continue
+					}
+					c := &pfbCase{Marker: true, Bufs: bufs, Chunks: chunks, Segs: []segment{
+						{Type: 1, Data: []byte("%!PS\n"), Declared: -1},
+						{Type: tp, Pattern: l, Declared: -1},
+						{Type: 3 - tp, Data: []byte{1, 2, 3}, Declared: -1},
+					}}
+					rec.Eval(1)
+					rec.Class(fmt.Sprintf("len=%d", l))
+					rec.NonTrivial(fmt.Sprint(l, tp, bufs, chunks))
+					msg := ev.Safe(func() string { return check(c) })
+					c.Segs[1].Data = nil // replay files keep the length only
+					if msg != "" {
+						rec.Violation(false, msg, c)
+					} else if rec.WantSample() && tp == 2 {
+						rec.Sample(map[string]any{"segment_length": l, "type": tp, "bufs": bufs, "chunks": chunks})
+					}
+				}
+			}
+		}
+	}
+	rec.Exhaustive()
 }
 
 func TestReplay(t *testing.T) {
